@@ -202,6 +202,7 @@ type Gen struct {
 	entry   *State
 	touched map[string]bool // global facts already emitted: name@arrayversion
 	keys    map[string]Sort // heap keys used
+	reveal  map[string]bool // opaque macros expanded in this context
 }
 
 func newGen(W *World, layer1 bool) *Gen {
